@@ -30,6 +30,11 @@ def _pickles():
     ]
 
 
+def _big():
+    # an object too large for a frame, and a tail after it that belongs to no frame (Lib/pickle.py's _Framer)
+    return ("two-70000-byte-members@4 (tail outside any frame)", pickle.dumps({"a": [b"z" * 70000], "b": "q" * 70000}, 4))
+
+
 def _split(data: bytes) -> List[bytes]:
     out = []
     pos = 0
@@ -160,6 +165,27 @@ def inject_world(repo: Repo, stack, k: int, run_last: bool, replace: bool, from_
     for i, (a, b) in enumerate(zip(parts, got)):
         if i != k and a != b:
             devs.append(("bystander-changed", f"{where}: pickle #{i} ({labels[i]}) is not byte-identical to the input ({a[:24]!r}... -> {b[:24]!r}...)"))
+    # a reader that takes the stream at its word (CPython's unpickler on a file object, which trusts FRAME lengths) finds the
+    # same n values: the bystanders' own, and for the target the original's value or the injected call's
+    stream = io.BytesIO(out)
+    for i in range(n):
+        try:
+            V.CALL_LOG.clear()
+            v = V._StandInUnpickler(stream).load()
+        except Exception as ex:
+            devs.append((f"stack-unreadable-from-file:{type(ex).__name__}", f"{where}: reading the emitted stack from a file object fails at pickle #{i} ({labels[i]}): {type(ex).__name__}: {str(ex)[:60]}"))
+            break
+        if i != k:
+            try:
+                V.CALL_LOG.clear()
+                own = V._StandInUnpickler(io.BytesIO(parts[i])).load()
+            except Exception:
+                continue
+            if not V.same_value(own, v):
+                devs.append(("bystander-value-changed", f"{where}: read from a file object, pickle #{i} ({labels[i]}) gives {v!r:.60} instead of {own!r:.60}"))
+    else:
+        if stream.read(1):
+            devs.append(("trailing-bytes", f"{where}: bytes remain after the {n} pickle(s) of the emitted stack"))
     # the k-th: what the helper does to it alone
     oe = _fresh_objeval(repo)
     pk = repo.cls("fickling.fickle.Pickled")
@@ -206,6 +232,28 @@ def decompile_world(repo: Repo, stack, trace: bool, from_file: bool) -> List[Tup
     dup = sorted(nm for nm, c in assigned.items() if re.fullmatch(r"_var\d+", nm) and c > 1)
     if dup:
         devs.append(("variable-reused", f"{where}: {dup[:4]} assigned more than once: a variable of one pickle is reused by another"))
+    # each pickle's value is bound to its own result name: the program run on inert stand-ins, result<i> against what CPython's
+    # unpickler (same stand-ins) returns for pickle i alone
+    if not devs:
+        try:
+            V.CALL_LOG.clear()
+            env = V.eval_program_env(mod)
+        except V.ProgramError as ex:
+            raise Unsupported(f"the printed program is outside the evaluated subset: {ex}")
+        except RecursionError:
+            return devs
+        except Exception as ex:
+            return [(f"program-does-not-run:{type(ex).__name__}", f"{where}: the printed program fails on inert stand-ins with {type(ex).__name__}: {str(ex)[:80]}")]
+        for i, (label, data) in enumerate(stack):
+            try:
+                V.CALL_LOG.clear()
+                want = V.reference_value(data)
+            except Exception:
+                continue
+            got = env.get(f"result{i}")
+            if not V.same_value(want, got):
+                devs.append(("result-value", f"{where}: in the printed program `result{i}` is {got!r:.70}; pickle #{i} ({label}) alone unpickles to {want!r:.70}"))
+                break
     return devs
 
 
@@ -237,8 +285,15 @@ def explore(repo: Repo, tier: str):
     _CREPO = repo
     ps = _pickles()
     stacks = [[p] for p in ps[:3]] + [list(c) for c in itertools.permutations(ps[:4], 2)][:: (1 if tier == "thorough" else 2)] + [[ps[0], ps[1], ps[2]], [ps[3], ps[4], ps[5]], [ps[5], ps[0], ps[3]]]
+    stacks += [[_big()], [ps[1], _big()]]
+    # a pickle that memoises several values, then one that fetches a memoised callable back (the second Fraction's class)
+    memo_a = ("text-list@4", pickle.dumps(["alpha", "beta", "gamma", "delta"], 4))
+    memo_b = ("two-Fractions@4 (the class fetched from the memo)", pickle.dumps([__import__("fractions").Fraction(1, 3), __import__("fractions").Fraction(2, 3)], 4))
+    stacks += [[memo_a, memo_b], [memo_b, memo_a, memo_b]]
+    # the same framed pickle more than once: equal opcodes, equal FRAME lengths - and still separate objects
+    stacks += [[ps[1], ps[1]], [ps[5], ps[1], ps[5]]]
     if tier == "thorough":
-        stacks += [list(c) for c in itertools.permutations(ps, 3)][::7]
+        stacks += [list(c) for c in itertools.permutations(ps, 3)][::7] + [[_big(), ps[2], _big()]]
     items = []
     for st in stacks:
         for k in range(len(st) + 1):
